@@ -423,4 +423,38 @@ func checkVolatile(c *core.Ctx, rule string) {
 		}
 	}
 	c.Floor(rule, n, 30, "fields of minter.Blockchain")
+	// rebuilt fields that are ALSO updated while running (grace periods, executor): the running
+	// update and the rebuild on restart must be the same function of the same persisted data —
+	// here the (name, height) pair handed to appDB.AddVersion
+	end := c.Fn("(*coreV2/minter.Blockchain).EndBlock")
+	if end != nil {
+		var addV, graceRun, execRun *core.Site
+		for _, s := range core.Sites(end) {
+			switch {
+			case s.Callee == "(*coreV2/appdb.AppDB).AddVersion":
+				addV = s
+			case s.Callee == "coreV2/minter.graceForUpdate":
+				graceRun = s
+			case s.Callee == "coreV2/minter.GetExecutor":
+				execRun = s
+			}
+		}
+		var graceInit, execInit *core.Site
+		for _, s := range core.Sites(initState) {
+			switch {
+			case s.Callee == "coreV2/minter.graceForUpdate":
+				graceInit = s
+			case s.Callee == "coreV2/minter.GetExecutor":
+				execInit = s
+			}
+		}
+		if addV == nil || graceRun == nil || execRun == nil || graceInit == nil || execInit == nil {
+			c.Unk(rule, "rebuild-consistency/shape", end.Pos(), "AddVersion / graceForUpdate / GetExecutor not all found in EndBlock and initState")
+		} else {
+			c.Check(core.SameValue(graceRun.Arg(0), addV.Arg(1)), rule, "rebuild-consistency/grace-running", graceRun.Pos(), "the running node derives the update's grace period from the height it persists with the version", "EndBlock registers the grace period for "+core.Path(graceRun.Arg(0))+" but persists the version with height "+core.Path(addV.Arg(1))+": a restarted node rebuilds a different grace window")
+			c.Check(strings.HasSuffix(core.Path(graceInit.Arg(0)), ".Height") && strings.Contains(core.Path(graceInit.Arg(0)), "UpdateVersions()"), rule, "rebuild-consistency/grace-restart", graceInit.Pos(), "initState rebuilds each grace period from the stored version's height", "initState rebuilds grace periods from "+core.Path(graceInit.Arg(0)))
+			c.Check(core.SameValue(execRun.Arg(0), addV.Arg(0)), rule, "rebuild-consistency/executor-running", execRun.Pos(), "the running node selects the executor from the version name it persists", "EndBlock selects the executor from a value other than the persisted version name")
+			c.Check(strings.HasSuffix(core.Path(execInit.Arg(0)), ".Name") && strings.Contains(core.Path(execInit.Arg(0)), "UpdateVersions()"), rule, "rebuild-consistency/executor-restart", execInit.Pos(), "initState selects the executor from the stored version names", "initState selects the executor from "+core.Path(execInit.Arg(0)))
+		}
+	}
 }
